@@ -635,7 +635,12 @@ def _oracle(case):
             fail("comp-subset", "writing %s (%s ; %s): component-aware results not among the exhaustive ones: %r" % (v["v"], v["sub"], v["rsmi"], sorted(C["std"] - A["std"])[:2]))
         elif C["iso"] is not None and A["iso"] is not None and not _sub_iso_sets(C["iso"], A["iso"]):
             fail("comp-subset-its", "writing %s (%s ; %s): a glued ITS graph of the component-aware strategy is not isomorphic to any of the exhaustive strategy" % (v["v"], v["sub"], v["rsmi"]))
-        if C["std"] and B["std"] != C["std"]:
+        if C["std"] and B["std"] != C["std"] and C["rec"].flag and C["std"] <= B["std"]:
+            # known finding: on the explicit-hydrogen path the re-matching inside _glue_graph re-decides BACKTRACK's fallback per kept match
+            fails.append(dict(clause="bt-equals-comp", key="explicit-path:bt-equals-comp",
+                              detail="writing %s (%s ; %s): pattern keeps explicit X-H bonds; fallback strategy gives %d reactions, component-aware %d (non-empty, a subset)"
+                                     % (v["v"], v["sub"], v["rsmi"], len(B["std"]), len(C["std"]))))
+        elif C["std"] and B["std"] != C["std"]:
             fail("bt-equals-comp", "writing %s (%s ; %s): fallback strategy gives %d reactions, component-aware %d (non-empty)" % (v["v"], v["sub"], v["rsmi"], len(B["std"]), len(C["std"])))
     # repetition: same reactor object asked again; a second reactor on the same template OBJECT and substrate
     try:
